@@ -176,3 +176,14 @@ func vTransOK(t pr.SDimensions) bool {
 //@   props C14
 //@   modifies anchors[..]
 //@   loop 1 step[name-kept] anchors[rangeindex].Name == old(anchors[rangeindex+1].Name)
+
+// background-repeat: space (css-backgrounds-3 §3.4): the images are spread only when at least two fit; the
+// step is then the free length divided by the number of gaps, which is at least one — the pattern size handed
+// to the backend is a finite number.
+//@ func (drawContext).drawBackgroundImage
+//@   props C14
+//@   modifies anything
+//@   unclaimed call-*-pre* "geometry accessors of a laid-out background layer"
+//@   assert after repeatWidth#3: nRepeats - 1 >= 1 && repeatWidth * (nRepeats - 1) == positioningWidth - imageWidth
+//@   assert after repeatHeight#3: nRepeats - 1 >= 1 && repeatHeight * (nRepeats - 1) == positioningHeight - imageHeight
+//@   call NewGroup#1 assert[pattern-size] arg1 == 0 && arg2 == 0 && arg3 == repeatWidth && arg4 == repeatHeight
